@@ -1,6 +1,6 @@
 (* Property C10 — sample result coding. Statements only; proofs live in Proofs/ and Gen/. *)
 From Coq Require Import List NArith ZArith Bool.
-From PV Require Import Lib.Table Model.Sample Model.GrpcStatus Model.Shoot Model.ShootEvents Proofs.SampleProofs Proofs.ShootProofs Proofs.ShootEventsProofs Gen.GrpcStatusGen Gen.GrpcStatus_bridge Gen.ConstGen Gen.Const_bridge.
+From PV Require Import Lib.Table Lib.AmmoBytes Lib.AmmoLines Model.AmmoCommon Model.AmmoUri Model.AmmoUripost Model.AmmoRaw Model.AmmoJson Model.ShootAmmo Proofs.ShootAmmoProofs Model.Sample Model.GrpcStatus Model.Shoot Model.ShootEvents Proofs.SampleProofs Proofs.ShootProofs Proofs.ShootEventsProofs Gen.GrpcStatusGen Gen.GrpcStatus_bridge Gen.ConstGen Gen.Const_bridge.
 Import ListNotations.
 Local Open Scope N_scope.
 
@@ -238,6 +238,79 @@ Example C10_handoff_example :
   at_end [SvAcquire [116] 7; SvReport; SvSetErr false e] = [mkSample [116] 0 111 7] /\
   late_writes [SvAcquire [116] 7; SvReport; SvSetErr false e] = 1%nat.
 Proof. repeat split. Qed.
+
+(* ---------------------------------------------------------------------------------------
+   "whose tag is the ammo's tag": from the bytes of the ammo file to the samples
+   (Model/ShootAmmo.v = the decoders of property C07 composed with BaseGun.Shoot).
+   For every url oracle, auto-tag setting, network behaviour (xof), well-formed file of the
+   format with any layout, and every number k of acquisitions: shooting what the provider
+   delivers yields exactly one sample per ammo of the file (cyclically), in order, each the
+   sample base_spec describes for the tag written on ITS request line (entity, for http/json).
+   --------------------------------------------------------------------------------------- *)
+Theorem C10_ammo_file_samples :
+  forall cfg url_parse (path_of : entry -> bytes) (xof : nat -> entry -> exchange) (k : nat),
+  (forall maxtok items fin,
+     forallb (wf_uitem url_parse maxtok) items = true -> uri_entries (map fst items) [] <> [] ->
+     shoot_deliveries cfg e_tag path_of xof 0 1 (uri_decode url_parse maxtok cfg0 k (render_uri items fin)) =
+     ammo_spec cfg e_tag path_of xof 0 1
+       (cycle_take k (uri_entries (map fst items) []) (uri_entries (map fst items) []))) /\
+  (forall items fin,
+     forallb (wf_pitem url_parse) items = true -> uripost_entries (map fst items) [] <> [] ->
+     shoot_deliveries cfg e_tag path_of xof 0 1 (uripost_decode url_parse cfg0 k (render_uripost items fin)) =
+     ammo_spec cfg e_tag path_of xof 0 1
+       (cycle_take k (uripost_entries (map fst items) []) (uripost_entries (map fst items) []))) /\
+  (forall ents es,
+     read_array url_parse ents = Some es -> es <> [] ->
+     shoot_deliveries cfg e_tag path_of xof 0 1 (json_stream_decode url_parse cfg0 k ents JEof) =
+     ammo_spec cfg e_tag path_of xof 0 1 (cycle_take k es es)).
+Proof.
+  intros. split; [|split]; intros.
+  - apply uri_file_samples; assumption.
+  - apply uripost_file_samples; assumption.
+  - apply json_file_samples; assumption.
+Qed.
+Print Assumptions C10_ammo_file_samples.
+
+Theorem C10_ammo_file_samples_raw :
+  forall cfg (path_of : rentry -> bytes) (xof : nat -> rentry -> exchange) (k : nat) items fin,
+  forallb wf_ritem items = true -> raw_entries (map fst items) <> [] ->
+  shoot_deliveries cfg rb_tag path_of xof 0 1 (raw_decode cfg0 k (render_raw items fin)) =
+  ammo_spec cfg rb_tag path_of xof 0 1 (cycle_take k (raw_entries (map fst items)) (raw_entries (map fst items))).
+Proof. intros. apply raw_file_samples; assumption. Qed.
+Print Assumptions C10_ammo_file_samples_raw.
+
+(* what ammo_spec says: one sample per ammo; tags chosen (C10_tag_choice) from each ammo's own
+   tag; ids the consecutive counter values, pairwise distinct; and the tags of the entries ARE
+   the tags written in the file, whole (every word), in order. *)
+Theorem C10_ammo_file_tags_ids :
+  (forall (E : Type) cfg (tag_of path_of : E -> bytes) xof es i id,
+     length (ammo_spec cfg tag_of path_of xof i id es) = length es /\
+     map sm_tags (ammo_spec cfg tag_of path_of xof i id es) = map (fun e => shoot_tags cfg (tag_of e) (path_of e)) es /\
+     map sm_id (ammo_spec cfg tag_of path_of xof i id es) = ids_from id (length es) /\
+     NoDup (map sm_id (ammo_spec cfg tag_of path_of xof i id es))) /\
+  (forall items h, map e_tag (uri_entries items h) = uitem_tags items) /\
+  (forall items h, map e_tag (uripost_entries items h) = pitem_tags items) /\
+  (forall items, map rb_tag (raw_entries items) = ritem_tags items) /\
+  (forall url_parse ents es, read_array url_parse ents = Some es -> map e_tag es = map j_tag ents).
+Proof.
+  split; [intros; split; [apply ammo_spec_length|split; [apply ammo_spec_tags|split; [apply ammo_spec_ids|apply ammo_spec_ids_nodup]]]|].
+  split; [exact uri_entries_tags|]. split; [exact uripost_entries_tags|].
+  split; [exact raw_entries_tags|exact read_array_tags].
+Qed.
+Print Assumptions C10_ammo_file_tags_ids.
+
+(* non-vacuity: an uripost file whose request has a three-word tag; auto-tag appended *)
+Example C10_ammo_file_example :
+  let url (u : bytes) : option (bytes * bytes) := Some (u, []) in
+  let items := [ (PReq [47;111;47;99] [108;105;115;116;32;97;108;108;32;111] [97;98], {| l_lead := []; l_trail := []; l_cr := false |});
+                 (PReq [47;120] [] [], {| l_lead := [32]; l_trail := []; l_cr := true |}) ] in
+  let cfg := Build_autotag_cfg true 1 false in
+  forallb (wf_pitem url) items = true /\
+  shoot_deliveries cfg e_tag e_url (fun _ _ => XResp 202 BodyOk) 0 1 (uripost_decode url cfg0 3 (render_uripost items true)) =
+  [ mkSample ([108;105;115;116;32;97;108;108;32;111] ++ 124 :: [47;111]) 202 0 1;
+    mkSample [47;120] 202 0 2;
+    mkSample ([108;105;115;116;32;97;108;108;32;111] ++ 124 :: [47;111]) 202 0 3 ].
+Proof. split; vm_compute; reflexivity. Qed.
 
 (* non-vacuity *)
 Example C10_shoot_example :
